@@ -3,6 +3,7 @@ from __future__ import annotations
 from pathlib import Path
 from typing import ClassVar
 
+import equinox as eqx
 import mujoco
 from jax import numpy as jnp
 from jax import random as jr
@@ -161,6 +162,14 @@ class Humanoid(AbstractMujocoEnv[Float[Array, "..."], Float[Array, "..."]]):
         data = mjx.forward(self.model, data)
 
         return MujocoEnvState(sim_state=data, t=jnp.array(0.0))
+
+    def transition(
+        self, state: MujocoEnvState, action: Float[Array, "..."], *, key: Key[Array, ""]
+    ) -> MujocoEnvState:
+        next_state = super().transition(state, action, key=key)
+        # mjx.step leaves cfrc_ext at zero; compute the external contact forces it reads
+        data = mjx.rne_postconstraint(self.model, next_state.sim_state)
+        return eqx.tree_at(lambda s: s.sim_state, next_state, data)
 
     def observation(
         self, state: MujocoEnvState, *, key: Key[Array, ""]
